@@ -32,6 +32,24 @@ for pp in sorted(glob.glob(os.path.join(ROOT, "props", "C*.json"))):
     status_rows.append(f"| {pid} | {cov.get('discharged','?')}/{cov.get('obligations','?')} | {cov.get('evaluations','?')} | {ev.get('wall_s','?')} | {str(m.get('level_text','')).replace('|','/')[:600]} |")
 status = ("| property | theorems discharged (last run) | correspondence cases (last run, tier as run) | wall s | what the check establishes |\n|---|---|---|---|---|\n"
           + "\n".join(status_rows) + "\n")
+def theorem_index():
+    out = []
+    for pp in sorted(glob.glob(os.path.join(ROOT, "lean", "GoMC", "Props", "C*.lean"))):
+        pid = os.path.basename(pp)[:-5]
+        if not re.match(r"^C\d\d$", pid):
+            continue
+        text = open(pp).read()
+        items = []
+        for m in re.finditer(r"(?:/--(.*?)-/\s*)?^theorem\s+([A-Za-z0-9_'.]+)", text, flags=re.S | re.M):
+            doc = (m.group(1) or "").strip().replace("\n", " ")
+            doc = re.sub(r"\s+", " ", doc)
+            # a docstring far above belongs to something else: keep only if it ends right before the theorem
+            items.append((m.group(2), doc[:260]))
+        out.append(f"\n**{pid}** ({len(items)} theorems)\n")
+        for n, d in items:
+            out.append(f"* `{n}`" + (f" — {d}" if d else ""))
+    return "\n".join(out) + "\n"
+
 p = os.path.join(ROOT, "DESIGN.md")
 s = open(p).read()
 block = ("<!-- GENERATED:BEGIN -->\n## Appendix I. Seeded changes (written by independent sub-agents that saw only the property text) and what caught them\n\n"
@@ -41,6 +59,7 @@ block = ("<!-- GENERATED:BEGIN -->\n## Appendix I. Seeded changes (written by in
          "\n## Appendix J. Genuine defects of go-mc repaired by `fix:` commits (from known_findings.json, `fixed` entries — they suppress nothing)\n\n" + fixed +
          "\n## Appendix K. Known findings not repaired (deviation markers)\n\n" + (finds if kf.get("findings") else "None at present.\n") +
          "\n## Appendix L. Status per property (from props/*.json and the last evidence files)\n\n" + status +
+         "\n## Appendix M. Index of property theorems (names and doc comments extracted from lean/GoMC/Props/*.lean)\n" + theorem_index() +
          "<!-- GENERATED:END -->\n")
 if "<!-- GENERATED:BEGIN -->" in s:
     s = re.sub(r"<!-- GENERATED:BEGIN -->.*<!-- GENERATED:END -->\n", lambda m: block, s, flags=re.S)
